@@ -106,6 +106,32 @@ func ZZ_C07_Config() { zzRoundTrip("Config", zzMkConfig, nil, nil, nil) }
 //vf: paths=20000 t.paths=400000
 func ZZ_C07_TxResultSet() { zzRoundTrip("TxResultSet", zzMkTxResultSet, zzDecTxResultSet, nil, nil) }
 
+// Text fields at the ends of the 16-bit length range (the length travels as a short).
+//vf: paths=2000
+func ZZ_C07_TxMethod_LongText() {
+	name := "TxMethod/longtext"
+	p := NewUdpTxMethodPack()
+	zzvf.Fill(p, -1, 1)
+	lens := []int{32767, 32768, 65535}
+	p.Stack = zzvf.String(lens[zzvf.Choose(len(lens))])
+	ver := zzvf.Int32()
+	p.Ver = ver
+	b := ToBytesPack(p)
+	q := NewUdpTxMethodPack()
+	q.Ver = ver
+	in := io.NewDataInputX(b)
+	if zzvf.Panics(func() { q.Read(in) }) {
+		zzvf.Assert(false, name+"/read-does-not-panic")
+		zzvf.Reach(name)
+		return
+	}
+	zzvf.Assert(in.Available() == 0, name+"/consumed-exactly")
+	zzvf.Assert(q.Stack == p.Stack, name+"/field/Stack")
+	zzvf.Assert(q.Method == p.Method, name+"/field/Method")
+	zzvf.Assert(zzvf.Same(ToBytesPack(q), b), name+"/reencode-identical")
+	zzvf.Reach(name)
+}
+
 // ActiveStats: the writer derives Data (decimal text, comma separated) from ActiveStats;
 // Read restores Data only and Process() rebuilds ActiveStats from it when it has exactly
 // the 5 entries of the protocol. So for this type: Read restores the Data the writer
